@@ -1,7 +1,8 @@
 (* C01 — decoding of tree snapshots / values / ops, evaluation with the model, canonical printing. *)
 From Coq Require Import ZArith List String Bool.
 Import ListNotations.
-From TD Require Import Lib.Sexp Model.C01_Tree Model.C01_Ops Model.C01_Scope.
+From TD Require Import Lib.Sexp Model.C01_Tree Model.C01_Ops Model.C01_Scope Model.C01_Index Model.C01_All.
+From TD Require Model.C03_Index.
 Open Scope string_scope.
 Open Scope list_scope.
 
@@ -86,6 +87,48 @@ Definition dec_op (s : sexp) : option op :=
   | _ => None
   end.
 
+(* ---- index items (Model/C03_Index.item) ---- *)
+Definition dec_item (s : sexp) : option C03_Index.item :=
+  match s with
+  | SL [SA "int"; SZ z] => Some (C03_Index.IInt z)
+  | SL [SA "sl"; a; b; c] =>
+      match dec_opt dec_Z a, dec_opt dec_Z b, dec_opt dec_Z c with
+      | Some a, Some b, Some c => Some (C03_Index.ISl a b c)
+      | _, _, _ => None
+      end
+  | SA "non" => Some C03_Index.INone
+  | SA "ell" => Some C03_Index.IEll
+  | SL [SA "adv"; sh] => option_map C03_Index.IAdv (dec_list dec_nat sh)
+  | SA "adv0" => Some C03_Index.IAdv0
+  | SL [SA "mask"; sh; c] =>
+      match dec_list dec_nat sh, dec_nat c with Some sh, Some c => Some (C03_Index.IMask sh c) | _, _ => None end
+  | _ => None
+  end.
+Definition dec_idx (s : sexp) : option idx := dec_list dec_item s.
+
+Definition dec_iop (s : sexp) : option iop :=
+  match s with
+  | SL [SA "setitem"; ix; v] => match dec_idx ix, dec_value v with Some ix, Some v => Some (ISetItem ix v) | _, _ => None end
+  | SL [SA "setat"; k; ix; v] =>
+      match dec_key k, dec_idx ix, dec_value v with Some k, Some ix, Some v => Some (ISetAt k ix v) | _, _, _ => None end
+  | SL [SA "updateat"; v; ix] => match dec_value v, dec_idx ix with Some v, Some ix => Some (IUpdateAt v ix) | _, _ => None end
+  | _ => None
+  end.
+
+Definition dec_xop (s : sexp) : option xop :=
+  match s with
+  | SL [SA "at"; p; o] =>
+      match dec_key p with
+      | Some p =>
+          match dec_op0 o with
+          | Some o0 => Some (XBase (OAt p o0))
+          | None => match dec_iop o with Some io => Some (XIdx p io) | None => None end
+          end
+      | None => None
+      end
+  | _ => None
+  end.
+
 Definition enc_dev (d : dev) : sexp := SA (match d with CPU => "cpu" | META => "meta" end).
 Definition enc_odev (d : option dev) : sexp := match d with None => SA "none" | Some d => enc_dev d end.
 Definition enc_name (n : option string) : sexp := match n with None => SA "none" | Some a => SA a end.
@@ -110,6 +153,14 @@ Definition dispatch (cmd : string) (args : list sexp) : option sexp :=
           let r := step t o in
           Some (SL [enc_tree (fst r); enc_outcome (snd r); enc_bool (coherentb t); enc_bool (coherentb (fst r));
                     enc_bool (in_scopeb t o); enc_bool (cleanb t o)])
+      | _, _ => None
+      end
+  | "xstep", [t; o] =>
+      match dec_tree t, dec_xop o with
+      | Some t, Some o =>
+          let r := xstep t o in
+          Some (SL [enc_tree (fst r); enc_outcome (snd r); enc_bool (coherentb t); enc_bool (coherentb (fst r));
+                    enc_bool (x_in_scopeb t o); enc_bool (x_cleanb t o)])
       | _, _ => None
       end
   | "coh", [t] => match dec_tree t with Some t => Some (enc_bool (coherentb t)) | None => None end
